@@ -305,6 +305,20 @@ def observers(ctx):
            den_kinds == ALL, fact=f"denominator sums over {sorted(den_kinds) if den_kinds else '?'}",
            why='the total leaves out some substances: the concentration is too high', key='concentration denominator')
 
+    # the answer 0 is given for a zero amount of the solute only: an empty-looking container (volume 0 with zero-volume
+    # solids) still has a mass / mole fraction
+    gi = model.func('Container.get_concentration')
+    for st in ast.walk(gi.node):
+        if isinstance(st, ast.If) and any(isinstance(b, ast.Return) and isinstance(b.value, ast.Constant) and
+                                          b.value.value in (0, 0.0) and not isinstance(b.value.value, bool) for b in st.body):
+            t = st.test
+            pure = isinstance(t, ast.Compare) and len(t.ops) == 1 and isinstance(t.ops[0], ast.Eq) and \
+                {unparse(t.left), unparse(t.comparators[0])} & {'0', '0.0'} and \
+                not any(isinstance(x, ast.Attribute) and x.attr in ('volume', 'max_volume') for x in ast.walk(t))
+            ctx.ob('C10.R2', gi, st.lineno, 'get_concentration answers 0 only when the amount of the solute is 0', bool(pure),
+                   fact=f"`return 0` under `{unparse(t, 60)}`", why='a container that holds the solute is reported as not '
+                   'holding it (e.g. zero stored volume with zero-volume solids and a mass denominator)',
+                   key='zero concentration guard')
     # plate observers, display helpers, recipe step dataframe
     for q in ('PlateSlicer.get_volumes', 'PlateSlicer.get_moles', 'PlateSlicer.dataframe', 'RecipeStep.dataframe',
               'Container.dataframe'):
